@@ -110,9 +110,12 @@ sfd_tran_pipe_stop(void *arg)
 	nni_aio_stop(&p->rxaio);
 	nni_aio_stop(&p->txaio);
 	nni_aio_stop(&p->negoaio);
-	nni_mtx_lock(&ep->mtx);
-	nni_list_node_remove(&p->node);
-	nni_mtx_unlock(&ep->mtx);
+	if (ep != NULL) {
+		// (ep is NULL if pipe creation failed before it was started)
+		nni_mtx_lock(&ep->mtx);
+		nni_list_node_remove(&p->node);
+		nni_mtx_unlock(&ep->mtx);
+	}
 }
 
 static const nng_sockaddr *
@@ -736,7 +739,7 @@ sfd_tran_listener_init(void *arg, nng_url *url, nni_listener *nlistener)
 
 	if ((rv = nng_stream_listener_alloc_url(&ep->listener, url)) !=
 	    NNG_OK) {
-		sfd_tran_ep_fini(ep);
+		// The caller finalizes the endpoint when init fails.
 		return (rv);
 	}
 
